@@ -650,6 +650,11 @@ impl Sim {
         CoreSnapshot { tasks, workers, queues, redirects, flag: self.comm_ref.get().get_scheduling_flag() }
     }
 
+    /// Iteration order of the worker's backlog map (request ids), as `retract_tasks` will see it.
+    pub fn backlog_rq_order(&self, w: WorkerId) -> Vec<u32> {
+        self.workers.get(&w).map(|sw| sw.state.get().prefilled_tasks.keys().map(|k| k.as_num()).collect()).unwrap_or_default()
+    }
+
     pub fn worker_snapshot(&self, w: WorkerId) -> Option<WorkerSnapshot> {
         let sw = self.workers.get(&w)?;
         let st = sw.state.get();
